@@ -911,7 +911,7 @@ impl Engine for C18 {
     }
     fn default_runs(&self, tier: Tier) -> u64 {
         match tier {
-            Tier::Quick => 1_000_000,
+            Tier::Quick => 700_000,
             Tier::Thorough => 6_000_000,
         }
     }
